@@ -111,7 +111,7 @@ def body(ch, ctx):
     perm = ch.choose("permutation", perms)
     edges = edges_of(k, mask)
     # ids with a comma or a per-cent sign (escaped in the file), a quote, an SQL wildcard, and one that looks like a keyword
-    names = ["n,0", "autoincrement:n1", "n'2", "n_3", "n%4"][:k]
+    names = ["n,0", "autoincrement:n1", "n'2", "n _3", "n%4"][:k]          # (the fourth also holds a blank)
     parents_of = {j: [names[i] for i, jj in edges if jj == j] for j in range(k)}
     if dangling is not None:
         parents_of[dangling] = parents_of[dangling] + ["ghost"]
